@@ -1,28 +1,28 @@
 SPECIFICATION Spec
 CONSTANTS
   Series = {"a"}
-  MaxSamples = 5
-  Gaps = {1}
+  MaxSamples = 0
+  Gaps = {}
   FirstT = 0
-  MaxT = 5
+  MaxT = 360
   Kinds = {"f", "h"}
-  RunGaps = {}
-  RunLens = {}
-  MaxRuns = 0
+  RunGaps = {1, 6}
+  RunLens = {24, 44}
+  MaxRuns = 3
   Sels <- SelsA
   Offs = {0}
   Ats <- AtsNone
-  Ranges = {2, 3}
-  Funcs = {"count_over_time", "last_over_time", "first_over_time"}
+  Ranges = {20}
+  Funcs = {"count_over_time", "first_over_time"}
   TsFuncs = {}
-  SqRanges = {3}
+  SqRanges = {20}
   SqSteps = {1}
   SqOffs = {0}
   SqAts <- AtsNone
   MaxWraps = 2
-  Starts = {1}
-  StepSizes = {1, 2}
-  NSteps = {3}
+  Starts = {30}
+  StepSizes = {20}
+  NSteps = {10}
   Slacks = {0}
   OffTimes = {}
   OffDs = {}
